@@ -189,7 +189,7 @@ func writeTimeSubsMediaSegment(w http.ResponseWriter, cfg *ResponseConfig, a *as
 
 	slog.Debug("segMeta", "nr", refSegMeta.newNr)
 	baseMediaDecodeTime := rep2SubsTime(refSegMeta.newTime, int(refSegMeta.timescale))
-	dur := uint32(rep2SubsTime(uint64(refSegMeta.newDur), int(refSegMeta.timescale)))
+	dur := uint32(rep2SubsTime(refSegMeta.newTime+uint64(refSegMeta.newDur), int(refSegMeta.timescale)) - baseMediaDecodeTime)
 
 	utcTimeMS := baseMediaDecodeTime + uint64(cfg.StartTimeS*SUBS_TIME_TIMESCALE)
 	var mediaSeg *mp4.MediaSegment
@@ -326,5 +326,5 @@ func createSubtitlesStppMediaSegment(nr uint32, baseMediaDecodeTime uint64, dur 
 }
 
 func rep2SubsTime(repTime uint64, timescale int) uint64 {
-	return uint64(math.Round(float64(repTime*SUBS_TIME_TIMESCALE) / float64(timescale)))
+	return (repTime*SUBS_TIME_TIMESCALE + uint64(timescale)/2) / uint64(timescale)
 }
